@@ -44,3 +44,10 @@ if _integrated():
     for _pid in ("C23", "C31"):
         if _pid in PROPS:
             PROPS[_pid].streams += [("uireal", gr.g_uireal_between if _pid == "C23" else gr.g_uireal, 1)]
+    # the memory view over the program's real memory (Overlay(Bytes, Sparse) after emulated stores) is only reachable
+    # through a session: one end-to-end stream each for the memory view (C32) and the screen rendering (C24)
+    for _pid in ("C32", "C24"):
+        if _pid in PROPS:
+            PROPS[_pid].streams += [("uireal", gr.g_uireal, 1)]
+            PROPS[_pid].rule += ("; stream uireal: end-to-end console sessions on real programs (see C22), which show the memory view "
+                                 "over the program's own layered memory after emulated stores")
